@@ -16,12 +16,7 @@ def bits16 (b : UInt64) : String :=
   let hex := Nat.toDigits 16 b.toNat
   String.ofList (List.replicate (16 - hex.length) '0' ++ hex)
 
-def opName : Op → String
-  | .inc => "INC" | .dec => "DEC" | .div => "DIV" | .mod => "MOD" | .mul => "MUL"
-  | .minus => "MINUS" | .plus => "PLUS" | .pow => "POW" | .shl => "SHL" | .shr => "SHR"
-  | .lt => "LT" | .gt => "GT" | .le => "LE" | .ge => "GE" | .eq => "EQ" | .ne => "NE"
-  | .bitand => "BITAND" | .xor => "XOR" | .bitor => "BITOR" | .not => "NOT" | .and => "AND" | .or => "OR"
-  | .addAssign => "ADD_ASSIGN" | .assign => "ASSIGN" | .match => "MATCH" | .notMatch => "NOT_MATCH"
+def opName : Op → String := Grammar.opTokenName
 
 def hexS (s : String) : String := Hex.encode s.toUTF8.toList
 
